@@ -50,7 +50,7 @@ PROPS = {
                 rule="a run = a pool of up to 6 live objects of one family (27 family/type instantiations, tracking allocator with arenas, instrumented items for the generic sketches) and an interleaving of construct, update, copy/move construct, copy/move assign, self assign, self move-assign, assignment chains, merge by reference and by move, query, serialize->deserialize into the pool, reset, destroy; per-object expected observation; non-trivial = at least one copy/move/assign/merge/restore; distinct = distinct plan hash"),
     "C09": dict(level="exploration", units=[("store_d", "c09d", 6, 2400, 60000), ("store_q", "c09q", 5, 2000, 50000), ("store_m", "c09m", 5, 2000, 50000)],
                 rule="a run = one seeded history (feed/merge/reset, checkpoints through either API with header/chunk/trailing/torn/lost faults, crashes with recovery from the log) over one family and configuration; non-trivial = executed at least one checkpoint round-trip or fault; distinct = distinct plan hash"),
-    "C11": dict(level="fault_enumeration", units=[("store_d", "c11d", 6, 360, 9000), ("store_q", "c11q", 5, 300, 7500), ("store_m", "c11m", 5, 300, 7500)],
+    "C11": dict(level="fault_enumeration", units=[("store_d", "c11d", 6, 120, 6000), ("store_q", "c11q", 5, 100, 5000), ("store_m", "c11m", 5, 100, 5000)],
                 rule="a run = one sampled valid image (family, variant, configuration, seeded history) whose fault space is enumerated completely: every strict prefix x {bytes, stream} and every byte of the first 64 x 8 replacement values x {bytes, stream}; non-trivial = at least one fault executed; distinct = distinct plan hash (image)"),
 }
 COMPONENTS = dict(real=["every datasketches-cpp header reached through the public API of the family under test (built from the working tree with -DDATASKETCHES_VERIF)"],
